@@ -308,9 +308,22 @@ def fw(x):
     return C.q2w(Fraction(float(x)))
 
 
+
+def corpus_cases():
+    import glob
+    import json
+    import os
+    return [json.load(open(path)) for path in sorted(glob.glob(os.path.join(C.VERIF, 'corpus', 'C10', '*.json')))]
+
+
 def correspondence(ctx):
     P, qp, J = _impl()
     rng = ctx.rng
+    for case in corpus_cases():     # minimised inputs that failed on the pinned tree: always run first
+        ctx.case(case['item'], case, nontrivial=True, tag='corpus')
+        ok_, detail_ = pred(case)
+        if not ok_:
+            ctx.pred_fail(case['item'], case, detail_)
     nmax = ctx.scale(12, 16)
     if ctx.widen:
         nmax = max(nmax, 16)
